@@ -60,11 +60,20 @@ class Unsupported(Exception):
 # typed values
 # --------------------------------------------------------------------------
 class TV:
-    __slots__ = ("k", "r", "hint")
+    __slots__ = ("k", "r", "hint", "opt", "full")
 
     def __init__(self, k, r, hint=None):
         self.k = k  # 'val' | 'int' | 'bool' | 'str' | 'py'
         self.r = r
+        # hint: what the value is when it is not None; opt: it may also be None;
+        # full: the declared type (used for the type fact)
+        self.full = hint
+        self.opt = False
+        if hint and "|" in hint:
+            alts = [x.strip() for x in hint.split("|")]
+            rest = [x for x in alts if x != "none"]
+            self.opt = "none" in alts
+            hint = rest[0] if len(rest) == 1 else None
         self.hint = hint
 
     def __repr__(self):
@@ -425,6 +434,8 @@ class Run:
             n = t.decl().name()
             if n in ("none", "bool", "int", "str", "ref", "nil", "cons"):
                 return n
+        if tv.opt:
+            return None
         h = tv.hint
         if h in ("int", "bool", "str", "none"):
             return h
@@ -647,7 +658,15 @@ class Run:
         hint = None
         if name_py is not None:
             hint = self.field_hint(obj_tv, name_py)
+        elem = None
+        if hint and "[" in hint:
+            # 'list[T]|none' -> container hint 'list|none', element hint T
+            i, j = hint.index("["), hint.rindex("]")
+            elem = hint[i + 1:j]
+            hint = hint[:i] + hint[j + 1:]
         tv = self.from_val(v, hint)
+        if elem and tv.k == "val":
+            self.elem_hints[str(tv.r)] = elem
         self.apply_hint_facts(tv)
         return tv
 
@@ -672,9 +691,9 @@ class Run:
     def apply_hint_facts(self, tv):
         """a declared field type is an assumption about the value (schema =
         data-structure invariant, stated in the evidence)"""
-        if tv.k != "val" or tv.hint is None:
+        if tv.k != "val" or tv.full is None:
             return
-        f = self.type_fact(tv.r, tv.hint)
+        f = self.type_fact(tv.r, tv.full)
         if f is not None:
             if self.in_spec and self.spec_side is not None:
                 self.spec_side.append(f)
